@@ -1,7 +1,7 @@
-\* thorough: read-back clauses two edits deep with rich parameters, third core
-CONSTANTS NLeaf = 6  NBlk = 3  NAsm = 2  MaxLevel = 3  LMax = 20000  VMax = 100
+\* thorough: read-back clauses three edits deep around height changes of blocks 7 and 8, edits at the centre assembly and the core
+CONSTANTS NLeaf = 6  NBlk = 3  NAsm = 2  MaxLevel = 4  LMax = 20000  VMax = 100
 CONSTANTS Parent <- TCoreParent  Area <- TCoreArea  Height <- TCoreHeight  Sym <- TCoreSym  W <- Wt  N0 <- TCoreN0  H0 <- TCoreH0
-CONSTANTS Targets <- TCoreTargets  Vals <- ValsT  Facs <- FacsT  Masses <- MassesT  Maps <- MapsT  FracMaps <- FracMapsT  AddMaps <- AddMapsT  SetMaps <- SetMapsT
+CONSTANTS Targets <- TCoreTargetsG  Vals <- ValsG  Facs <- None  Masses <- MassesG  Maps <- None  FracMaps <- None  AddMaps <- AddMapsG  SetMaps <- None
 CONSTANTS HDom <- HDom123  HTargets <- TCoreH78  HVals <- HDom123
 CONSTANTS LeafVolCut <- LeafVolCutEnv  ScaleRaises <- ScaleRaisesEnv
 INIT InitB
